@@ -133,3 +133,10 @@ def require_ok(res: TlcResult, what: str) -> TlcResult:
         tail = "\n".join(res.out.splitlines()[-40:])
         raise MachineryError(f"{what}: TLC rc={res.rc} violated={res.violated} errors={res.errors[:3]}\n{tail}")
     return res
+
+
+def write_cfg(text: str) -> str:
+    fd, path = tempfile.mkstemp(suffix=".cfg", dir=scratch_root())
+    with os.fdopen(fd, "w") as f:
+        f.write(text)
+    return path
